@@ -183,7 +183,7 @@ _c("C06",
    "multi-field wrappers and of ambiguous readings) and the model deserializer are both evaluated in Coq on every generated "
    "document of the model fragment (images, single-point corruptions at any depth, non-object documents, both flags; "
    "wrapper-rich classes; a deterministic lattice wrapper kind x alternative whose trial fails outside TypeError/ValueError x "
-   "other alternative x order x position x document) and compared with the real Deserializer and with cls(**lift(d)).",
+   "other alternative x order x position x document; a deterministic nesting lattice: a structure nested directly / as Map value / below two Maps / in Array, Deque, Set, Tuple, positional Array / as a wrapper alternative and combinations x nested and top class allow or forbid additional properties x keys that are not fields at every level x keep_undefined in {True, False, default} x the configuration flag, read with ONE keep_undefined at every level) and compared with the real Deserializer and with cls(**lift(d)).",
    "Trusted: Coq kernel + vm_compute; Ser/Deserialize.v, Ser/DocReading.v hand-written; generators harness/sergen.py, "
    "harness/c06gen.py; handler recogniser harness/genmods/deser_flow.py (fails closed); CPython. Outside the scalar fragment the "
    "agreement clause is decided by the differential only. Field classes outside Fields/FieldAst.v (DecimalNumber, DateField/DateTime/TimeField, DateString/"
